@@ -214,6 +214,18 @@ where
     Ok(size)
 }
 
+#[cfg(h3_verif)]
+impl Encoder {
+    /// Verification hook: build an encoder over a configured table.
+    pub fn verif_with_table(table: DynamicTable) -> Encoder {
+        Encoder { table }
+    }
+    /// Verification hook: read-only access to the encoder's table.
+    pub fn verif_table(&self) -> &DynamicTable {
+        &self.table
+    }
+}
+
 #[cfg(test)]
 impl From<DynamicTable> for Encoder {
     fn from(table: DynamicTable) -> Encoder {
